@@ -1,7 +1,7 @@
 # pid -> (pid, category, text, level_note, technique, design_ref)
 TABLE = {
  'C08': ('C08', 'exploration',
-   'Seeded simulation of the one clause of C08 that meets a seam: an unreadable \\LTinput / \\YYCleverefInput file. The real filter (library call, python -m yalafi CLI, and the shell) runs against an in-memory file system that injects ENOENT/EACCES/EISDIR/EIO at open, EIO after k characters, undecodable bytes and vanishing files; the oracle checks diagnostic line/column, complete mark, mark position in the map, survival of following text, and that the fault-free twin has neither mark nor diagnostic. Sampling, not proof.',
+   'Seeded simulation of the one clause of C08 that meets a seam: an unreadable \\LTinput file. The real filter (library call, python -m yalafi CLI, and the shell) runs against an in-memory file system that injects ENOENT/EACCES/EISDIR/EIO at open, EIO after k characters, undecodable bytes and vanishing files; the oracle checks diagnostic line/column, complete mark, mark position in the map, survival of following text, and that the fault-free twin has neither mark nor diagnostic. Sampling, not proof.',
    'Only the "unreadable \\LTinput file" clause is decided; the seven syntactic problem kinds are pure functions of the input string and are not addressed by this technique. Trusts the SimFS stub (builtins.open wrapper) to represent real OS failures.',
    'deterministic simulation with file-system fault injection', 'DESIGN.md §4 C08'),
  'C14': ('C14', 'exploration',
